@@ -110,7 +110,7 @@ const (
 	idNotary    = 2
 )
 
-func newScen(r *prng.R, o *hx.Out, mtbSmall bool) *scen {
+func newScen(r *prng.R, o *hx.Out, mtb int) *scen {
 	s := &scen{accIDs: map[util.Uint160]int{}}
 	switch r.Intn(10) {
 	case 0, 1:
@@ -132,8 +132,8 @@ func newScen(r *prng.R, o *hx.Out, mtbSmall bool) *scen {
 		}
 		c.P2PSigExtensions = s.p2p
 		c.ReservedAttributes = s.reserved
-		if mtbSmall {
-			c.MaxTraceableBlocks = 5
+		if mtb > 0 {
+			c.MaxTraceableBlocks = uint32(mtb)
 			c.MaxValidUntilBlockIncrement = 50
 		}
 	})
@@ -337,7 +337,7 @@ func (c *cand) calculator() {
 		if a.contract {
 			// what a wallet does for contract-based witnesses: a test run (neotest/basic.go:341-359, rpcsrv/server.go:1040-1050)
 			exec += a.cost
-			size += 2
+			size += 1 + io.GetVarSize(a.script) // empty invocation script + the verification script (empty for deployed contracts)
 			continue
 		}
 		f, sz := fee.Calculate(s.pol.base, a.script)
@@ -425,7 +425,11 @@ func (c *cand) sign() {
 	for i, a := range c.accts {
 		if a.contract {
 			c.sigs = append(c.sigs, nil)
-			c.tx.Scripts = append(c.tx.Scripts, transaction.Witness{InvocationScript: []byte{}, VerificationScript: []byte{}})
+			vs := a.script // inline custom script, or nothing for a deployed contract
+			if vs == nil {
+				vs = []byte{}
+			}
+			c.tx.Scripts = append(c.tx.Scripts, transaction.Witness{InvocationScript: []byte{}, VerificationScript: vs})
 			continue
 		}
 		sg := a.sigs(magic, c.tx, c.which[i])
@@ -471,9 +475,10 @@ func (c *cand) applyWit(r *prng.R, i int, k witKind) {
 // ---- the model's op line ----------------------------------------------------------------
 
 type recInfo struct {
-	kind    string // N | T | S
-	index   uint32
-	signers []util.Uint160
+	kind      string // N | T | S
+	index     uint32 // S: block index in the stub under the hash (the newest conflicting transaction)
+	signers   []util.Uint160
+	signerIdx []uint32 // S: block index in the per-signer record (the newest one that signer signed); nil = all `index`
 }
 
 type poolInfo struct {
@@ -523,8 +528,12 @@ func (c *cand) admitLine(rec recInfo, onChainHashes map[util.Uint256]bool, p poo
 	switch rec.kind {
 	case "S":
 		fmt.Fprintf(&b, " S %d %d", rec.index, len(rec.signers))
-		for _, h := range rec.signers {
-			fmt.Fprintf(&b, " %d %d", s.id(h), rec.index)
+		for i, h := range rec.signers {
+			idx := rec.index
+			if rec.signerIdx != nil {
+				idx = rec.signerIdx[i]
+			}
+			fmt.Fprintf(&b, " %d %d", s.id(h), idx)
 		}
 	default:
 		b.WriteString(" " + rec.kind)
@@ -654,7 +663,7 @@ func submit(o *hx.Out, k int, w *world, tx *transaction.Transaction, tag string)
 var invKinds = []string{
 	"none", "none", "none", "none", "none", "none",
 	"fee-1", "fee-1", "fee-1",
-	"fee+", "expired", "vub-far", "blocked", "bad-script", "sysfee-big", "on-chain", "stub-common", "stub-disjoint", "stub-old",
+	"fee+", "expired", "vub-far", "blocked", "bad-script", "sysfee-big", "on-chain", "stub-common", "stub-disjoint", "stub-old", "stub-multi", "stub-multi", "stub-multi",
 	"bad-sig", "missing-sig", "wrong-key", "empty-verif", "swapped-sigs", "nvb-future", "conflicts-dup", "conflicts-onchain",
 	"hp-no-committee", "reserved", "oracle", "notary", "no-funds", "dup-signers", "below-need", "pool-dup", "two", "noncanon",
 	"contract", "contract", "contract-fee-1", "contract-false",
@@ -681,7 +690,14 @@ func admitCorpus() []func(o *hx.Out, k int, r *prng.R) {
 }
 
 func runAdmit(o *hx.Out, k int, r *prng.R, inv string) {
-	s := newScen(r, o, inv == "stub-old")
+	mtb := 0
+	switch inv {
+	case "stub-old":
+		mtb = 5
+	case "stub-multi":
+		mtb = r.Range(2, 7)
+	}
+	s := newScen(r, o, mtb)
 	defer s.w.close()
 	w := s.w
 	o.Count("kind:admit")
@@ -919,6 +935,9 @@ func runAdmit(o *hx.Out, k int, r *prng.R, inv string) {
 			tx.Script = sc
 		}
 	}
+	if inv == "stub-multi" {
+		tx.ValidUntilBlock = height + uint32(r.Range(30, 50)) // survives the history built below
+	}
 	c.finish(delta)
 	if len(signers) <= 5 {
 		c.crossCheckNeotest(o, k)
@@ -1022,6 +1041,94 @@ func runAdmit(o *hx.Out, k int, r *prng.R, inv string) {
 			expect = "ok"
 		}
 		if tx.ValidUntilBlock <= w.bc.BlockHeight() {
+			expect = "reject"
+		}
+	}
+	if inv == "stub-multi" {
+		// several on-chain transactions in different blocks name the candidate as a conflict; the candidate is
+		// submitted around the edge of the traceability window of each of them.
+		type onChainConflict struct {
+			index   uint32
+			signers []util.Uint160
+		}
+		var history []onChainConflict // the harness's own record of what it put on chain
+		avail := []*acct{s.A, s.B}
+		if !s.blockedC {
+			avail = append(avail, s.C)
+		}
+		ny := r.Range(2, 3)
+		for i := 0; i < ny; i++ {
+			var ys []*acct
+			for _, a := range avail {
+				if r.Bool() {
+					ys = append(ys, a)
+				}
+			}
+			if len(ys) == 0 {
+				ys = []*acct{avail[r.Intn(len(avail))]}
+			}
+			if i == ny-1 && r.Chance(2, 3) {
+				// the newest one shares a signer with the candidate
+				common := signers[r.Intn(len(signers))]
+				if !common.contract && common != s.NC && !containsAcct(ys, common) {
+					ys = append(ys, common)
+				}
+			}
+			y := s.newCand(r, ys, 0)
+			y.tx.Attributes = []transaction.Attribute{{Type: transaction.ConflictsT, Value: &transaction.Conflicts{Hash: tx.Hash()}}}
+			y.finish(0)
+			b := w.addBlock(y.tx)
+			oc := onChainConflict{index: b.Index}
+			for _, a := range ys {
+				oc.signers = append(oc.signers, a.hash)
+			}
+			history = append(history, oc)
+			gap := r.Range(0, mtb+1)
+			if i < ny-1 {
+				gap = r.Range(0, mtb)
+			}
+			for j := 0; j < gap; j++ {
+				w.addBlock()
+			}
+		}
+		H := w.bc.BlockHeight()
+		traceable := func(idx uint32) bool { return idx <= H && idx+uint32(mtb) > H }
+		// the statement: named as a conflict by a traceable on-chain transaction of one of its signers
+		named := false
+		for _, oc := range history {
+			if !traceable(oc.index) {
+				continue
+			}
+			for _, h := range oc.signers {
+				if tx.HasSigner(h) {
+					named = true
+				}
+			}
+		}
+		o.Count(fmt.Sprintf("stub-multi:named=%v", named))
+		if traceable(history[0].index) {
+			o.Count("stub-multi:oldest-traceable")
+		} else if traceable(history[len(history)-1].index) {
+			o.Count("stub-multi:oldest-out-newest-in")
+		} else {
+			o.Count("stub-multi:all-out")
+		}
+		// the records as dao.StoreAsTransaction keeps them: newest index under the hash, newest per signer
+		rec = recInfo{kind: "S", index: history[len(history)-1].index}
+		latest := map[util.Uint160]uint32{}
+		for _, oc := range history {
+			for _, h := range oc.signers {
+				if _, ok := latest[h]; !ok {
+					rec.signers = append(rec.signers, h)
+				}
+				latest[h] = oc.index
+			}
+		}
+		for _, h := range rec.signers {
+			rec.signerIdx = append(rec.signerIdx, latest[h])
+		}
+		expect = "ok"
+		if named {
 			expect = "reject"
 		}
 	}
